@@ -218,11 +218,16 @@ func (c *Channel) JoinPresence(ctx context.Context, p stanza.Presence, opt ...Op
 	}
 	c.pass = conf.password
 	if conf.newNick != "" {
-		newAddr, err := c.addr.WithResource(conf.newNick)
+		// Only validate the nick here. The address of the channel is whatever
+		// the room confirms in its self-presence (see below); changing it before
+		// the room has answered, without holding the client's lock and without
+		// re-keying the client's table, made Joined report false for a channel
+		// that was still joined whenever the request failed or was abandoned,
+		// and raced with Joined.
+		_, err := c.addr.WithResource(conf.newNick)
 		if err != nil {
 			return err
 		}
-		c.addr = newAddr
 	}
 
 	ctx, cancel := context.WithCancel(ctx)
